@@ -36,6 +36,8 @@ import os
 import symtable
 import sys
 
+from . import localflow
+
 OBJ = "<obj>"
 EXT = "<ext>"
 PKG = "lena"
@@ -243,7 +245,7 @@ class ModuleExtractor(object):
 
     def new_func(self, qual, line):
         rec = {"id": "%s:%s" % (self.modname, qual), "mod": self.modname, "line": line, "end": line,
-               "imports": [], "loads": {}, "chains": {}}
+               "imports": [], "loads": {}, "chains": {}, "flows": []}
         self.funcs.append(rec)
         return rec
 
@@ -483,6 +485,10 @@ class ModuleExtractor(object):
             for s in tab.get_symbols():
                 if s.is_declared_global() and s.is_assigned():
                     self.dyndefs.add(s.get_name())
+            # binding events of the local names of this scope (LocalsResolve)
+            flow = localflow.Flow(node, tab, fold, lambda h: _catches(h, _NAMEERR + ("UnboundLocalError",))).build()
+            if flow.names_of_interest():
+                frec["flows"].append(flow.restricted())
             self.block(sub, node.body)
             self.bind_name(env, node.name, node.lineno)
             return
@@ -652,6 +658,15 @@ class ModuleExtractor(object):
             f["loads"] = [{"name": n, "line": ln} for n, ln in sorted(f["loads"].items())]
             f["chains"] = [{"root": r, "rv": rv, "links": list(ls), "line": ln}
                            for (r, rv, ls), ln in sorted(f["chains"].items())]
+        for f in self.funcs:
+            nodes, succ, seeds = [], [], []
+            for fn, fs, fseeds in f.pop("flows"):
+                off = len(nodes)
+                nodes.extend({"op": op, "name": nm, "line": ln} for op, nm, ln in fn)
+                succ.extend([y + off + 1 for y in ys] for ys in fs)                 # 1-based for TLA+
+                seeds.extend({"t": t + off + 1, "h": h + off + 1, "last": la + off + 1, "name": nm}
+                             for t, h, la, nm in fseeds)
+            f["fnodes"], f["fsucc"], f["fseeds"] = nodes, succ, seeds
         # unique function ids
         seen = {}
         for f in self.funcs:
@@ -799,6 +814,16 @@ def to_tla(data, name, entry_sets, trace=False, specdir=None):
         (f["id"], "{%s}" % ", ".join("[root |-> %s, rv |-> %s, links |-> %s, line |-> %d]" % (
             _s(c["root"]), _s(c["rv"]), _seq(c["links"]), c["line"]) for c in f["chains"]))
         for f in funcs))
+    flowf = [f for f in funcs if f["fnodes"]]
+    L.append("FlowFuncs == %s" % _set(f["id"] for f in flowf))
+    L.append("FNodes == %s" % _fun(
+        (f["id"], "<<%s>>" % ", ".join("[op |-> %s, name |-> %s, line |-> %d]" % (_s(n["op"]), _s(n["name"]), n["line"])
+                                       for n in f["fnodes"])) for f in flowf))
+    L.append("FSucc == %s" % _fun(
+        (f["id"], "<<%s>>" % ", ".join("{%s}" % ", ".join(str(y) for y in ys) for ys in f["fsucc"])) for f in flowf))
+    L.append("FSeeds == %s" % _fun(
+        (f["id"], "{%s}" % ", ".join("[t |-> %d, h |-> %d, last |-> %d, name |-> %s]" % (x["t"], x["h"], x["last"], _s(x["name"]))
+                                     for x in f["fseeds"])) for f in flowf))
     L.append("Builtins == %s" % _set(data["builtins"]))
     L.append("Implicit == %s" % _set(data["implicit"]))
     L.append("PkgImplicit == %s" % _set(data["pkgimplicit"]))
@@ -822,4 +847,7 @@ if __name__ == "__main__":
         print(json.dumps({"modules": len(d["modules"]), "funcs": len(d["funcs"]),
                           "stmts": sum(len(b) for b in d["body"].values()),
                           "loads": sum(len(f["loads"]) for f in d["funcs"]),
-                          "chains": sum(len(f["chains"]) for f in d["funcs"])}))
+                          "chains": sum(len(f["chains"]) for f in d["funcs"]),
+                          "flow_funcs": sum(1 for f in d["funcs"] if f["fnodes"]),
+                          "flow_nodes": sum(len(f["fnodes"]) for f in d["funcs"]),
+                          "seeds": sum(len(f["fseeds"]) for f in d["funcs"])}))
